@@ -226,9 +226,72 @@ fn vector_consumers() -> Vec<(&'static str, Vec<Op>)> {
     ]
 }
 
+/// Work must be paid for: whatever a transaction makes the validator execute is bounded by the fee it offers.
+/// Coins locked by loop covenants of known weight are spent at fee multipliers > 0 with fees from 0 up to the
+/// minimum; the process-wide instruction counter (hook) is read around `apply_tx`.
+fn paid_work(rep: &mut Report, p: &Params) {
+    use crate::world::*;
+    use bytes::Bytes;
+    use melstructs::{BlockHeight, CoinData, CoinDataHeight, CoinID, CoinValue, Denom, NetID, Transaction, TxHash, TxKind};
+    use num::BigUint;
+    let mut r = Rng::new(p.shard_seed() ^ 0x9a1d);
+    let n = p.share(p.n(320, 6400));
+    for i in 0..n {
+        let mult: u128 = *r.pick(&[1000u128, 65_536, 1_000_000, 1 << 30]);
+        let net = *r.pick(&[NetID::Custom02, NetID::Mainnet, NetID::Testnet]);
+        let (n1, n2) = *r.pick(&[(100u16, 1u16), (10_000, 1), (65_535, 1), (300, 300), (1000, 700), (65_535, 20)]);
+        // Loop(n1, 3){ Loop(n2, 1){ Noop } Noop }  PushI(1)
+        let ops = vec![Op::Loop(n1, 3), Op::Loop(n2, 1), Op::Noop, Op::Noop, pushi(1)];
+        let bytes = refvm::encode(&ops).unwrap();
+        let cov_weight = refvm::weight(&ops);
+        let id = CoinID { txhash: TxHash(tmelcrypt::hash_keyed(b"c11paid", (p.shard_seed() ^ i).to_be_bytes())), index: 0 };
+        let value: u128 = 1 << 100;
+        let mut fab = Fab::new(net, 1_100_000 + r.below(100));
+        fab.fee_multiplier = mult;
+        fab.coins.push((id, CoinDataHeight { coin_data: CoinData { covhash: addr_of(&bytes), value: CoinValue(value), denom: Denom::Mel, additional_data: Bytes::new() }, height: BlockHeight(1_000_000) }));
+        let db = new_db();
+        let st = fab.build(&db).next_unsealed();
+        let mk = |fee: u128| Transaction {
+            kind: TxKind::Normal,
+            inputs: vec![id],
+            outputs: vec![CoinData { covhash: crate::gen::destroy_addr(), value: CoinValue(value - fee), denom: Denom::Mel, additional_data: Bytes::new() }],
+            fee: CoinValue(fee),
+            covenants: vec![Bytes::from(bytes.clone())],
+            data: Bytes::new(),
+            sigs: vec![],
+        };
+        let min = crate::model::big_to_u128_sat(&crate::model::ref_min_fee(&mk(0), mult));
+        for (fee, cls) in [(0u128, "fee=0"), (min / 2, "fee=min/2"), (min.saturating_sub(1), "fee=min-1"), (min, "fee=min"), (min + 5, "fee=min+5")] {
+            let tx = mk(fee);
+            let mut s2 = st.clone();
+            let before = melvm::opcode::verif::steps_executed();
+            let res = guarded(|| s2.apply_tx(&tx));
+            let steps = melvm::opcode::verif::steps_executed() - before;
+            rep.eval();
+            rep.count("apply_tx calls with the executed instructions counted");
+            rep.count_n("instructions executed inside apply_tx", steps);
+            rep.nontrivial(fnv(format!("paid|{}|{}|{}|{}|{}", mult, n1, n2, cls, i).as_bytes()));
+            let accepted = matches!(res, Ok(Ok(())));
+            rep.count(&format!("paid-work probes: {} -> {}", cls, if accepted { "accepted" } else { "rejected" }));
+            // steps * mult / 65536 <= fee offered
+            let cost = BigUint::from(steps) * BigUint::from(mult) / BigUint::from(65536u32);
+            if cost > BigUint::from(fee) {
+                rep.violate(
+                    &format!("C11|unpaid-work|apply_tx|{}", if fee < min { "fee-below-minimum" } else { "fee-at-or-above-minimum" }),
+                    format!("a transaction offering a fee of {} (minimum {}) made the validator execute {} instructions, worth {} at multiplier {}", fee, min, steps, cost, mult),
+                    json!({"multiplier": mult.to_string(), "fee": fee.to_string(), "minimum_fee": min.to_string(), "covenant_weight": cov_weight.to_string(), "instructions_executed": steps, "accepted": accepted, "covenant": ops_brief(&ops), "net": format!("{:?}", net), "result": format!("{:?}", res.as_ref().map_err(|e| e.message.clone()))}),
+                );
+            }
+            if fee >= min && !accepted {
+                rep.count("paid-work probes rejected although the fee covers the weight (observed)");
+            }
+        }
+    }
+}
+
 pub fn run(p: &Params) -> Report {
     let mut rep = Report::new("C11");
-    rep.rule = "cases = (adversarial program family, size): k nested loops (k = 1..22 quick / ..40 thorough) with 0/1/2/65535 iterations and short/long bodies, sibling loops, overrunning bodies, loops with an empty body followed by a cheap or a costly instruction (alone, repeated, inside and at the end of an enclosing loop), jump-heavy code, byte-string and vector self-append doubling (1..70 rounds) followed by each consuming opcode in every operand position, random decodable strings. Per case the hooked executor counts executed instructions (must be <= weight), the hooked weight function counts visited opcodes (budget 4n^2+64), a counting allocator measures peak and cumulative bytes during weigh and execute (budget 1 MiB + 4 KiB*(weight+code+heap), cumulative 64x). A family is grown until its first budget excess. Non-trivial = every measured (family,size); distinct by that pair".into();
+    rep.rule = "cases = (adversarial program family, size): k nested loops (k = 1..22 quick / ..40 thorough) with 0/1/2/65535 iterations and short/long bodies, sibling loops, overrunning bodies, loops with an empty body followed by a cheap or a costly instruction (alone, repeated, inside and at the end of an enclosing loop), jump-heavy code, byte-string and vector self-append doubling (1..70 rounds) followed by each consuming opcode in every operand position, random decodable strings; and coins locked by loop covenants of weight 10^2..10^6 spent through apply_tx at fee multipliers 10^3..2^30 with fees 0, min/2, min-1, min, min+5, where a process-wide instruction counter (hook) must show instructions x multiplier / 65536 <= fee offered. Per case the hooked executor counts executed instructions (must be <= weight), the hooked weight function counts visited opcodes (budget 4n^2+64), a counting allocator measures peak and cumulative bytes during weigh and execute (budget 1 MiB + 4 KiB*(weight+code+heap), cumulative 64x). A family is grown until its first budget excess. Non-trivial = every measured (family,size); distinct by that pair".into();
     let journal = p.journal.as_ref().and_then(|j| std::fs::File::create(j).ok());
     let mut rep2 = Report::new("C11");
     std::mem::swap(&mut rep, &mut rep2);
@@ -359,6 +422,7 @@ pub fn run(p: &Params) -> Report {
         cx.tripped.remove("random-decodable");
     }
     drop(cx);
+    paid_work(&mut report, p);
     report.rule = rep.rule;
     report.require("instructions executed", 100_000);
     report
